@@ -642,3 +642,111 @@ set_account_meta($src, "last", $m)`, asset: cA,
 		meta: map[string]map[string]string{"cfg": {"src": src, "amount": cA + " " + amount.String(), "fee": fee}},
 		total: func(func(string, string) *big.Int, map[string]machine.Value) *big.Int { return amount }})
 }
+
+// caps and overdraft allowances given in ANOTHER asset than the one that is sent: either refused, or the postings
+// still carry the statement's asset and respect the usual bounds (a cap in euros does not cap dollars silently wrong)
+func Harness_VM_39_cap_in_another_asset() {
+	cap := symMonetary("var.cap", "EUR/2")
+	checkCase(vmCase{script: `vars {
+  monetary $m
+  monetary $cap
+}
+send $m (
+  source = {
+    max $cap from @a
+    @world
+  }
+  destination = @b
+)`, vars: mvars("m", "monetary", "cap", machine.Value(cap)), asset: cA, total: totalVar("m")})
+}
+
+func Harness_VM_40_overdraft_in_another_asset() {
+	od := symMonetary("var.od", "EUR/2")
+	checkCase(vmCase{script: `vars {
+  monetary $m
+  monetary $od
+}
+send $m (
+  source = @a allowing overdraft up to $od
+  destination = @b
+)`, vars: mvars("m", "monetary", "od", machine.Value(od)), asset: cA, total: totalVar("m"), bounds: boundsOf("a", "od")})
+}
+
+func Harness_VM_41_send_all_to_allotment_kept() {
+	checkCase(vmCase{script: `vars {
+  portion $p
+}
+send [USD/2 *] (
+  source = @a
+  destination = {
+    $p to @b
+    remaining kept
+  }
+)`, vars: mvars("p", "portion"), asset: cA})
+}
+
+func Harness_VM_42_source_allotment_overdraft_world() {
+	checkCase(vmCase{script: `vars {
+  monetary $m
+  monetary $od
+  portion $p
+}
+send $m (
+  source = {
+    $p from @a allowing overdraft up to $od
+    remaining from @world
+  }
+  destination = @b
+)`, vars: mvars("m", "monetary", "od", "monetary", "p", "portion"), asset: cA, total: totalVar("m"), bounds: boundsOf("a", "od")})
+}
+
+func Harness_VM_43_save_all_then_send_all() {
+	checkCase(vmCase{noTracked: true, script: `save [USD/2 *] from @a
+send [USD/2 *] (
+  source = @a
+  destination = @b
+)`, asset: cA, total: func(func(string, string) *big.Int, map[string]machine.Value) *big.Int { return new(big.Int) }})
+}
+
+func Harness_VM_44_balance_var_used_twice_and_received() {
+	checkCase(vmCase{script: `vars {
+  monetary $bal = balance(@a, USD/2)
+}
+send $bal (
+  source = @world
+  destination = @a
+)
+send $bal (
+  source = @a
+  destination = @b
+)
+send $bal (
+  source = @a
+  destination = @c
+)`, asset: cA, total: func(bal func(string, string) *big.Int, _ map[string]machine.Value) *big.Int {
+		return new(big.Int).Mul(bal("a", cA), big.NewInt(3))
+	}})
+}
+
+func Harness_VM_45_zero_amount_and_meta_of_every_type() {
+	checkCase(vmCase{script: `vars {
+  monetary $m
+  portion $p
+  number $n
+  account $acc
+  asset $ast
+  string $s
+}
+send [USD/2 0] (
+  source = @a
+  destination = @b
+)
+set_account_meta(@b, "m", $m)
+set_account_meta(@b, "p", $p)
+set_account_meta(@b, "n", $n)
+set_account_meta(@b, "acc", $acc)
+set_account_meta(@b, "ast", $ast)
+set_account_meta(@b, "s", $s)
+set_tx_meta("m", $m)`, vars: mvars("m", "monetary", "p", "portion", "n", "number", "acc", machine.AccountAddress("x:y"), "ast", machine.Asset("EUR/2"), "s", machine.String("hello")),
+		asset: cA, total: func(func(string, string) *big.Int, map[string]machine.Value) *big.Int { return new(big.Int) }})
+}
